@@ -480,3 +480,25 @@ def counter_dfa(rng):
     rng.shuffle(delta)
     F = [names[rng.randrange(n)]] + ([names[rng.randrange(n)]] if rng.random() < 0.2 else [])
     return {'Q': [names[i] for i in order], 'Sigma': Sigma, 'delta': delta, 'q0': names[0], 'F': sorted(set(F))}
+
+
+def pop_loop_pda(rng):
+    """an epsilon self-loop that POPS (the shape of the drain state of pda_to_accept_on_empty_stack): push a marker, push one x per a,
+    pop the x's in an epsilon self-loop, pop the marker into the accepting state; language a* (or a*b when `tail`)"""
+    eps = rng.choice(['_', 'ε', ''])
+    names = rng.choice([['q0', 'q1', 'qf'], ['s', 'loop', 'done'], ['q_initial1', 'q_drain1', 'q_accept1']])
+    q0, q1, qf = names
+    m = rng.choice(['$', '#', 'Z'])
+    delta = {(q0, eps, eps): {(q1, m)}, (q1, 'a', eps): {(q1, 'x')}, (q1, eps, 'x'): {(q1, eps)}, (q1, eps, m): {(qf, eps)}}
+    Sigma = ['a']
+    if rng.random() < 0.5:
+        delta = {(q0, eps, eps): {(q1, m)}, (q1, 'a', eps): {(q1, 'x')}, (q1, 'b', eps): {(qf, eps)}, (qf, eps, 'x'): {(qf, eps)},
+                 (qf, eps, m): {(q0 + 'z', eps)}}
+        names = names + [q0 + 'z']
+        Sigma = ['a', 'b']
+        F = [q0 + 'z']
+    else:
+        F = [qf]
+    d = [[p, b, u, sorted([list(t) for t in T])] for (p, b, u), T in delta.items()]
+    rng.shuffle(d)
+    return {'Q': names, 'Sigma': Sigma, 'Gamma': sorted({'x', m}), 'delta': d, 'q0': q0, 'F': F, 'eps': eps, 'dd': True}
